@@ -34,7 +34,36 @@ EXPLANATION = (
 )
 
 
+COMP_PROBE = "Select(ds, lambda x: (lambda a: [a.met + x.pt for x in x.jets])(x))"
+
+
+def comprehension_probe(ctx, key):
+    "the known finding: a comprehension that reaches the simplifier has its target captured / renamed"
+    import ast
+    import copy
+
+    import pyworld
+    from common import rich_dataset
+
+    a = simplify.parse_query(COMP_PROBE)
+    try:
+        out = simplify.run_simplifier(copy.deepcopy(a))
+    except Exception as e:
+        ctx.violate({"src": COMP_PROBE, "error": f"{type(e).__name__}: {e}"[:200]}, "the simplifier raised on a comprehension", key=key)
+        return
+    w = pyworld.to_world(rich_dataset(ctx.rng))
+    want = pyworld.from_world(pyworld.py_eval(a, w))
+    try:
+        have = pyworld.from_world(pyworld.py_eval(out, w))
+    except Exception as e:
+        have = f"raises {type(e).__name__}: {e}"[:160]
+    if have != want:
+        ctx.violate({"src": COMP_PROBE, "out": ast.unparse(out), "python_original": repr(want)[:150], "python_simplified": repr(have)[:150]},
+                    "a comprehension inside a simplified query: the result does not compute what the original computes", key=key)
+
+
 def run(ctx):
+    comprehension_probe(ctx, "C02-comprehension-target-captured")
     n = ctx.n(1200, 60000)
     done = 0
     while done < n:
